@@ -13,7 +13,7 @@ STEPS = [
     dict(flavor="asan", harness="h_evbuf", args=["--mode", "model"], cases=dict(quick=2500, thorough=80000), timeout=dict(quick=900, thorough=7200)),
     dict(flavor="asan", harness="h_evbuf", args=["--mode", "model", "--arg", "exh"], cases=dict(quick=33824, thorough=1082400), seed_off=3, timeout=dict(quick=900, thorough=7200)),
 ]
-REQUIRED = ["ops", "exh_sequences", "invariant_walks", "walk_multichain", "walk_immutable_chains",
+REQUIRED = ["abandoned_reservation_shapes", "ops", "exh_sequences", "invariant_walks", "walk_multichain", "walk_immutable_chains",
             "op_add", "op_prepend", "op_add_printf", "op_add_buffer", "op_prepend_buffer", "op_remove_buffer", "op_drain",
             "op_remove", "op_copyout", "op_copyout_from", "op_pullup", "op_expand", "op_reserve_commit", "op_add_iovec",
             "op_peek", "op_search", "op_search_eol", "op_readln", "op_ptr_set", "op_freeze", "op_add_reference",
